@@ -71,6 +71,12 @@ func gen19(seed int64, tier string) []drv.Case {
 }
 
 func payload(r *rand.Rand, i int) string {
+	if r.Intn(40) == 0 {
+		// large entries around powers of two (buffer sizes), up to 1 MiB
+		n := []int{4095, 4096, 4097, 32768, 65535, 65536, 65537, 131073, 1 << 20}[r.Intn(9)]
+		b := []byte(strings.Repeat(fmt.Sprintf("%06d|", i), n/7+1))
+		return string(b[:n])
+	}
 	switch r.Intn(12) {
 	case 0:
 		return ""
